@@ -15,6 +15,9 @@ import (
 	"os"
 	"sort"
 	"strings"
+	"sync"
+	"sync/atomic"
+	"time"
 
 	"github.com/anz-bank/sysl/pkg/database"
 	"github.com/anz-bank/sysl/pkg/parse"
@@ -494,6 +497,73 @@ type replay struct {
 type runner struct {
 	c  *common.Ctx
 	cs *common.Cases
+	// generation only queues the cases; flush compiles all versions with the real parser on several goroutines
+	// (the results do not depend on the schedule) and then judges / prints the cases in generation order
+	collect bool
+	queue   []job
+	cache   map[*Model]built
+}
+type job struct {
+	kind   string
+	models []*Model
+	note   string
+}
+type built struct {
+	v   *version
+	why string
+}
+
+func (r *runner) run(kind string, models []*Model, note string) {
+	if r.collect {
+		r.queue = append(r.queue, job{kind, models, note})
+		return
+	}
+	r.runNow(kind, models, note)
+}
+
+func (r *runner) flush() {
+	var all []*Model
+	for _, j := range r.queue {
+		all = append(all, j.models...)
+	}
+	res := make([]built, len(all))
+	t0 := time.Now()
+	var wg sync.WaitGroup
+	next := int64(-1)
+	for w := 0; w < 8; w++ {
+		wg.Add(1)
+		go func() {
+			defer wg.Done()
+			for {
+				i := int(atomic.AddInt64(&next, 1))
+				if i >= len(all) {
+					return
+				}
+				v, why := r.buildNow(all[i])
+				res[i] = built{v, why}
+			}
+		}()
+	}
+	wg.Wait()
+	if os.Getenv("VERIF_C16_TIMING") != "" {
+		fmt.Fprintf(os.Stderr, "compiled %d versions in %v\n", len(all), time.Since(t0))
+	}
+	r.cache = map[*Model]built{}
+	for i, m := range all {
+		r.cache[m] = res[i]
+	}
+	r.collect = false
+	for _, j := range r.queue {
+		r.runNow(j.kind, j.models, j.note)
+	}
+	r.queue, r.cache = nil, nil
+}
+
+func (r *runner) build(m *Model) (*version, string) {
+	if b, ok := r.cache[m]; ok {
+		return b.v, b.why
+	}
+	return r.buildNow(m)
 }
 
 // compiled version
@@ -504,7 +574,7 @@ type version struct {
 	proj  []ptable
 }
 
-func (r *runner) build(m *Model) (*version, string) {
+func (r *runner) buildNow(m *Model) (*version, string) {
 	files, tl, cl := m.render()
 	mod, err := compile(files)
 	if err != nil {
@@ -522,7 +592,7 @@ func (r *runner) build(m *Model) (*version, string) {
 
 // runVersions: versions[0] gets its creation script judged; every consecutive pair gets its delta judged;
 // with three versions the chain is judged as well.
-func (r *runner) run(kind string, models []*Model, note string) {
+func (r *runner) runNow(kind string, models []*Model, note string) {
 	c := r.c
 	rp := replay{Kind: kind, Versions: models, Note: note}
 	var vs []*version
@@ -737,5 +807,7 @@ Local Open Scope positive_scope.`
 		}
 		return
 	}
+	r.collect = true
 	generate(r)
+	r.flush()
 }
